@@ -40,6 +40,9 @@ Proof. unfold valid_ident. rewrite !andb_true_iff. tauto. Qed.
 Lemma valid_ident_nocomma s : valid_ident s = true -> contains_char comma s = false.
 Proof. unfold valid_ident. rewrite !andb_true_iff, !negb_true_iff. tauto. Qed.
 
+Lemma valid_ident_trim s : valid_ident s = true -> trim_space s = s.
+Proof. unfold valid_ident. rewrite !andb_true_iff. intros [_ H]. apply String.eqb_eq. exact H. Qed.
+
 Lemma valid_tags_nonempty c : valid_checker c = true ->
   forallb (fun t => negb (String.eqb t "")) (ctags c) = true.
 Proof.
@@ -105,6 +108,15 @@ Proof.
   apply andb_true_iff in Hv as [Hv _]. rewrite (valid_ident_nocomma _ Hv). reflexivity.
 Qed.
 
+Lemma default_keys_trim reg : forallb valid_checker reg = true ->
+  map trim_space (cli_default_enable reg) = cli_default_enable reg.
+Proof.
+  intros Hv. unfold cli_default_enable. rewrite map_map.
+  apply map_ext_in. intros c Hc. apply filter_In in Hc as [Hc _].
+  rewrite forallb_forall in Hv. specialize (Hv c Hc). unfold valid_checker in Hv.
+  apply andb_true_iff in Hv as [Hv _]. apply valid_ident_trim. exact Hv.
+Qed.
+
 Lemma no_tag_keys_in_names reg : forallb valid_checker reg = true ->
   forall t, mem ("#" ++ t) (cli_default_enable reg) = false.
 Proof.
@@ -139,16 +151,17 @@ Proof.
   assert (Hne : String.eqb (cname c) "" = false).
   { unfold valid_checker in Hvc. apply andb_true_iff in Hvc as [Hvc _].
     apply valid_ident_nonempty in Hvc. apply negb_true_iff in Hvc. exact Hvc. }
-  change (split_on comma "") with [""].
+  unfold split_values. change (map trim_space (split_on comma "")) with [""].
   rewrite spec_selected_default_disable by exact Hne.
   pose proof (default_keys_roundtrip reg Hv) as Hrt. cbv zeta in Hrt. rewrite Hrt.
   pose proof (mem_map_cname_filter reg no_optin c Hnd Hin) as Hm.
   fold (cli_default_enable reg) in Hm.
+  pose proof (default_keys_trim reg Hv) as Htr.
   destruct (cli_default_enable reg) as [|x r] eqn:E.
-  - cbn [mem]. rewrite Hne. cbn [orb].
+  - change (map trim_space [""]) with [""]. cbn [mem]. rewrite Hne. cbn [orb].
     rewrite (existsb_false (fun t => mem ("#" ++ t) [""])) by (intros y; reflexivity).
     cbn [mem] in Hm. exact Hm.
-  - rewrite <- E in *.
+  - rewrite Htr. rewrite <- E in *.
     rewrite (existsb_false (fun t => mem ("#" ++ t) (cli_default_enable reg))) by (apply no_tag_keys_in_names; exact Hv).
     rewrite orb_false_r. exact Hm.
 Qed.
@@ -263,3 +276,43 @@ Proof.
     + apply IH. exact Hacc.
 Qed.
 
+
+(* ---- round 5: the same flag texts in both dialects ---- *)
+Definition unpaddedb (keys : list string) : bool := forallb (fun k => String.eqb (trim_space k) k) keys.
+
+Lemma map_trim_unpadded keys : unpaddedb keys = true -> map trim_space keys = keys.
+Proof.
+  induction keys as [|k r IH]; simpl; intros H; [reflexivity|].
+  apply andb_true_iff in H as [Hk Hr]. apply String.eqb_eq in Hk. rewrite Hk, IH by exact Hr. reflexivity.
+Qed.
+
+(* both dialects split and trim alike: the same texts select the same checkers *)
+Lemma frontends_same_keys reg all en dis c :
+  String.eqb dis "<default>" = false ->
+  cli_selected reg {| cf_all := all; cf_enable := Some en; cf_disable := Some dis |} c
+  = an_selected {| af_all := all; af_enable := Some en; af_disable := Some dis |} c.
+Proof.
+  intros Hdef. unfold cli_selected, an_selected, cli_enable_keys, cli_disable_keys, an_disable_arg.
+  simpl. rewrite Hdef. reflexivity.
+Qed.
+
+(* before the repair this needed lists free of surrounding blanks ... *)
+Lemma frontends_same_keys_prefix reg all en dis c :
+  unpaddedb (split_on comma en) = true -> unpaddedb (split_on comma dis) = true ->
+  String.eqb dis "<default>" = false ->
+  cli_selected_prefix reg {| cf_all := all; cf_enable := Some en; cf_disable := Some dis |} c
+  = an_selected {| af_all := all; af_enable := Some en; af_disable := Some dis |} c.
+Proof.
+  intros He Hd Hdef. unfold cli_selected_prefix, an_selected, cli_enable_keys_prefix, cli_disable_keys_prefix, an_disable_arg, split_values.
+  simpl. rewrite Hdef. rewrite (map_trim_unpadded _ He), (map_trim_unpadded _ Hd). reflexivity.
+Qed.
+
+(* ... and failed without *)
+Lemma frontends_padded_prefix_refuted :
+  exists reg all en dis c, In c reg /\ valid_checker c = true /\ String.eqb dis "<default>" = false /\
+    cli_selected_prefix reg {| cf_all := all; cf_enable := Some en; cf_disable := Some dis |} c
+    <> an_selected {| af_all := all; af_enable := Some en; af_disable := Some dis |} c.
+Proof.
+  exists [{| cname := "dupArg"; ctags := ["diagnostic"] |}], false, " dupArg", "", {| cname := "dupArg"; ctags := ["diagnostic"] |}.
+  repeat split; try reflexivity; [left; reflexivity|vm_compute; discriminate].
+Qed.
